@@ -80,6 +80,11 @@ theorem deltasFrom_sorted (ts : List Nat) (prev : Nat) (hs : ts.Pairwise (· ≤
     · have : prev + (t - prev) = t := by omega
       simp [runningSums, this, h2]
 
+theorem toNat_ofNat_map (ds : List Nat) : List.map Int.toNat (List.map Int.ofNat ds) = ds := by
+  induction ds with
+  | nil => rfl
+  | cons d ds ih => simp [ih]
+
 theorem runningSums_length (acc : Nat) (ds : List Nat) : (runningSums acc ds).length = ds.length := by
   induction ds generalizing acc with
   | nil => rfl
